@@ -78,8 +78,11 @@ def check_synchronize(ctx, m):
             allcalls_in_wrapper = [n for n in ast.walk(w) if isinstance(n, ast.Call) and isinstance(n.func, ast.Name)
                                    and n.func.id == wrapped]
             inner_body = body[0].body
-            okshape = (len(calls) == 1 and len(allcalls_in_wrapper) == 1 and len(inner_body) == 1
-                       and isinstance(inner_body[0], ast.Return) and inner_body[0].value is calls[0]
+            direct = len(inner_body) == 1 and isinstance(inner_body[0], ast.Return) and bool(calls) and inner_body[0].value is calls[0]
+            via_tmp = (len(inner_body) == 2 and isinstance(inner_body[0], ast.Assign) and len(inner_body[0].targets) == 1 and isinstance(inner_body[0].targets[0], ast.Name)
+                       and bool(calls) and inner_body[0].value is calls[0] and isinstance(inner_body[1], ast.Return) and isinstance(inner_body[1].value, ast.Name)
+                       and inner_body[1].value.id == inner_body[0].targets[0].id)
+            okshape = (len(calls) == 1 and len(allcalls_in_wrapper) == 1 and (direct or via_tmp)
                        and calls[0].args and isinstance(calls[0].args[0], ast.Name) and calls[0].args[0].id == 'self')
     ctx.check(okshape, rule, 'KmipEngine._synchronize|with-lock-single-call', site,
               'wrapper = `with self.%s: return function(self, ...)`' % lockattr,
